@@ -26,8 +26,25 @@ func NewChannelMgr(cfg *Config, defaultTimeShiftBufferDepthS, defaultReceiveNrRa
 	}
 }
 
+// GetOrAddChannel returns the channel registered under chName and creates it first if needed.
+// Concurrent first uploads of several tracks get the same channel object.
+func (cm *ChannelMgr) GetOrAddChannel(ctx context.Context, chName, chDir string) *channel {
+	cm.mu.Lock()
+	defer cm.mu.Unlock()
+	if ch, ok := cm.channels[chName]; ok {
+		return ch
+	}
+	cm.addChannelLocked(ctx, chName, chDir)
+	return cm.channels[chName]
+}
+
 func (cm *ChannelMgr) AddChannel(ctx context.Context, chName, chDir string) {
 	cm.mu.Lock()
+	defer cm.mu.Unlock()
+	cm.addChannelLocked(ctx, chName, chDir)
+}
+
+func (cm *ChannelMgr) addChannelLocked(ctx context.Context, chName, chDir string) {
 
 	chCfg := ChannelConfig{
 		Name:                 chName,
@@ -51,7 +68,6 @@ func (cm *ChannelMgr) AddChannel(ctx context.Context, chName, chDir string) {
 		chCfg.TimeShiftBufferDepthS = cm.defaultTimeShiftBufferDepthS
 	}
 	cm.channels[chName] = newChannel(ctx, chCfg, chDir)
-	cm.mu.Unlock()
 }
 
 func (cm *ChannelMgr) GetChannel(chName string) (*channel, bool) {
